@@ -33,7 +33,7 @@ SPEC = {'id': 'C43',
              'today; true: kept). Not modelled: protocolName/protocolType pass-through, OffsetFetch/DescribeGroups/ListGroups/DeleteGroups, store errors, the '
              "ticker's real-time jitter.",
  'search_n': 1500,
- 'theorems': ['C43_expired_removed', 'C43_laggers_removed', 'C43_live_kept', 'C43_heartbeat_refreshes', 'C43_only_cleanup_or_leave_removes', 'C43_nonvacuous'],
+ 'theorems': ['C43_expired_removed', 'C43_laggers_removed', 'C43_live_kept', 'C43_heartbeat_refreshes', 'C43_only_cleanup_or_leave_removes', 'C43_lasthb_is_last_refresh', 'C43_nonvacuous'],
  'level_text': 'Machine-checked Coq theorems for every reachable state and every cleanup time: a member whose last refresh is more than its session timeout '
                'ago is removed by the next cleanup tick and the group rebalances (generation+1) or is deleted; a member that has not rejoined is removed by '
                'the first tick at/after the rebalance deadline; a member refreshed within its session timeout that is not such a lagger is kept; a heartbeat '
